@@ -12,7 +12,7 @@ ID = "C15"
 LEVEL = "model_checking"
 ASSUMPTIONS = [
     "twin oracle: the same history runs on Traph(folder=None, ...) and on Traph(folder=<fresh tmpfs folder>, ...) built with identical arguments",
-    "the memory-mapped reader is taken right after each request, with no intervening call that happens to flush, and read in full before the file object is touched again",
+    "the memory-mapped reader is taken right after each request, with no intervening call that happens to flush, and read in full before the file object is touched again; the reader of the first request is released at once, those of the middle requests are still open when the next one is taken (a caller keeping a reader across requests)",
     "bounds: histories up to the depth reported per space, including multi-block stems and constructor-supplied rules; constructor flag overwrite in {False, True}",
 ]
 
@@ -61,11 +61,17 @@ class Check(HCheck):
         F.pair = None
         F.mapped = None
         tr = None
-        def take_maps():
+        held = []
+
+        def take_maps(hold=False):
+            # hold=True: the maps of this step stay open until the next step has taken and read its
+            # own (a caller that keeps a reader across requests); hold=False: released at once
             try:
                 got = []
+                mine = []
                 for st in (F.t.lru_trie_storage, F.t.links_store_storage):
                     mm = st.map()
+                    mine.append(mm)
                     blocks = []
                     off = 0
                     while True:
@@ -74,8 +80,16 @@ class Check(HCheck):
                             break
                         blocks.append(bytes(b))
                         off += st.block_size
-                    mm.release()
                     got.append(b"".join(blocks))
+                for mm in held:
+                    if all(mm is not x for x in mine):
+                        mm.release()
+                del held[:]
+                if hold:
+                    held.extend(mine)
+                else:
+                    for mm in mine:
+                        mm.release()
                 return got
             except Exception as e:
                 return "%s: %s" % (type(e).__name__, e)
@@ -88,7 +102,7 @@ class Check(HCheck):
                     F.pair = (tr, trM)
                 # memory-mapped reader: taken right after EVERY request (so that a history holds
                 # several maps with only in-place rewrites between two of them)
-                F.mapped = take_maps()
+                F.mapped = take_maps(hold=0 < i < len(hist) - 1)
         except Disabled:
             F.close()
             return None, None
